@@ -47,15 +47,21 @@ func (f c12File) rel() string {
 type c12Spelling struct {
 	name string
 	make func(parent, leaf string) string // parent: absolute parent dir (also cwd), leaf: directory name(s) below it
+	in   bool                             // cwd is the directory itself, not its parent
 }
 
 var c12Spellings = []c12Spelling{
-	{"absolute", func(p, l string) string { return filepath.Join(p, l) }},
-	{"absolute + trailing separator", func(p, l string) string { return filepath.Join(p, l) + "/" }},
-	{"relative", func(p, l string) string { return l }},
-	{"./ prefix", func(p, l string) string { return "./" + l }},
-	{"relative + trailing separator", func(p, l string) string { return l + "/" }},
-	{"./ prefix + trailing separator", func(p, l string) string { return "./" + l + "/" }},
+	{"absolute", func(p, l string) string { return filepath.Join(p, l) }, false},
+	{"absolute + trailing separator", func(p, l string) string { return filepath.Join(p, l) + "/" }, false},
+	{"relative", func(p, l string) string { return l }, false},
+	{"./ prefix", func(p, l string) string { return "./" + l }, false},
+	{"relative + trailing separator", func(p, l string) string { return l + "/" }, false},
+	{"./ prefix + trailing separator", func(p, l string) string { return "./" + l + "/" }, false},
+	{"doubled separator", func(p, l string) string { return strings.Replace(filepath.Join(p, l), "/", "//", 2) }, false},
+	{"through ..", func(p, l string) string { return l + "/../" + filepath.Base(l) }, false},
+	{"dot (cwd is the directory)", func(p, l string) string { return "." }, true},
+	{"dot + separator (cwd is the directory)", func(p, l string) string { return "./" }, true},
+	{"up and down again (cwd is the directory)", func(p, l string) string { return "../" + filepath.Base(l) }, true},
 }
 
 func corpusDump(cl *Classifier) []string {
@@ -76,7 +82,7 @@ func c12Trees(c *vrep.Ctx) {
 	}
 	leaves := []string{"corp", "nest/ed"}
 	queries := [][]byte{[]byte("zqa aa bb cc aa bb zqb"), []byte("zqa cc bb aa cc bb aa"), []byte("gg hh ii gg hh\njj kk ll jj kk"), []byte("zqa")}
-	c.R.Rule = fmt.Sprintf("all sets of <=%d files drawn from depth 1..5 x names {a.txt, b.txt, x.md, txt, y.ptxt, empty e.txt, 0.txt (sorts before the directories)} (%d options), built in a private temp dir, x %d spellings of the directory (absolute/relative, ./ prefix, trailing separator) x {single, multi-component} directory; LoadLicenses must not panic or fail; files shallower than category/name/variant or not ending in 'txt' are ignored; if every remaining file sits at depth 3 the corpus (keys and word sequences, white-box) and Match on a query menu equal a classifier built by AddContent per file; non-trivial = distinct (tree, spelling) cases with at least one loadable file", maxFiles, len(options), len(c12Spellings))
+	c.R.Rule = fmt.Sprintf("all sets of <=%d files drawn from depth 1..5 x names {a.txt, b.txt, x.md, txt, y.ptxt, empty e.txt, 0.txt (sorts before the directories)} (%d options), built in a private temp dir, x %d spellings of the directory (absolute/relative, ./ prefix, trailing separator, doubled separator, through .., and '.', './', '../name' with the directory as cwd) x {single, multi-component} directory; LoadLicenses must not panic or fail; files shallower than category/name/variant or not ending in 'txt' are ignored; if every remaining file sits at depth 3 the corpus (keys and word sequences, white-box) and Match on a query menu equal a classifier built by AddContent per file; non-trivial = distinct (tree, spelling) cases with at least one loadable file", maxFiles, len(options), len(c12Spellings))
 	c.Bound("max_files", maxFiles)
 	c.Bound("spellings", len(c12Spellings))
 	tmp, err := os.MkdirTemp("", "verif-c12-")
@@ -130,6 +136,9 @@ func c12Trees(c *vrep.Ctx) {
 			want.AddContent(c12Comps[0], c12Comps[1], f.name, []byte(f.body))
 		}
 		os.Chdir(parent)
+		if sp.in {
+			os.Chdir(root)
+		}
 		dir := sp.make(parent, leaf)
 		got := NewClassifier(0.8)
 		var lerr error
@@ -150,13 +159,12 @@ func c12Trees(c *vrep.Ctx) {
 				}
 			}
 		} else {
-			// deeper files: only the ignore rules are checked
-			for _, k := range vDocKeys(got) {
-				for _, f := range files {
-					if (f.depth < 3 || !strings.HasSuffix(f.name, "txt")) && strings.HasSuffix(k, string(os.PathSeparator)+f.name) && f.depth < 3 {
-						msg = fmt.Sprintf("file %s shallower than category/name/variant was loaded as %s", f.rel(), k)
-					}
-				}
+			// deeper files: only the ignore rules are checked - every loaded document must come from a
+			// loadable file,
+			// and there cannot be more documents than loadable files
+			keys := vDocKeys(got)
+			if len(keys) > loadable {
+				msg = fmt.Sprintf("%d documents loaded from %d loadable files (a file shallower than category/name/variant or without the txt suffix was loaded): %v", len(keys), loadable, keys)
 			}
 		}
 		sort.Strings(desc)
